@@ -24,8 +24,8 @@ CLAIMED = {
  'C06': dict(cat='model_checking', ref='6/C06', text='Kernel level: crash = drop the real System and reopen the database file with a fresh one at seeded points; TLC checks that the state found after restart is exactly the last committed one, that every acknowledgement corresponds to a committed effect, and the atomicity invariants on every observed state. Process level: Durable.tla says what kill -9, SIGTERM with the default configuration, restarts, crashes during recovery and requests in flight at the kill may do to the durable state (nothing / all or nothing; background processing resumes); TLC generates behaviours, procx plays them on real `resonate serve` processes (real signals, bursts of small and of 100 kB requests killed after milliseconds or when the file has grown), TLC re-runs the machine along the observations and judges every look at the database file and every API read (DurableTrace.tla).', tech=TRACE + '; process level: TLA+ state machine Durable.tla, behaviours generated by TLC, played on the real binary by procx, observations validated by TLC (DurableTrace.tla)', engine='tlc+ksim'),
  'C07': dict(cat='model_checking', ref='6/C07', text='Claim guard, one claim per counter, lease honoured, fencing: exhaustive in the level-A task model (2 workers, stale/future counters, ttl 0); real claim/complete/heartbeat/sweep/dispatch interleavings validated by TLC with the lease bookkeeping of the spec.', tech=TRACEB),
  'C08': dict(cat='model_checking', ref='6/C08', text='Birth/finish of tasks with their promise and the dispatch discipline (selection, one per root per cycle, enqueued only after success, message names task+counter) checked by TLC on the model and on recorded executions with the real router and the real sender worker (recording plugin).', tech=TRACEB),
- 'C09': dict(cat='model_checking', ref='6/C09', text='Lock exclusivity and lease arithmetic: exhaustive for 2 executions x 2 processes x ttl {0,1,2} x every clock position; real acquire/release/heartbeat/sweep interleavings validated by TLC.', tech=TRACE),
- 'C10': dict(cat='model_checking', ref='6/C10', text='Schedule firing (advance by exactly one occurrence, never early, atomic with the promise, idempotent create) exhaustive in the model; real cron strings, clock jumps, delete/re-create races, faults and crashes validated by TLC.', tech=TRACE),
+ 'C09': dict(cat='model_checking', ref='6/C09', text='Lock exclusivity and lease arithmetic: exhaustive for 2 executions x 2 processes x ttl {0,1,2} x every clock position; real acquire/release/heartbeat/sweep interleavings validated by TLC.', tech=TRACEB),
+ 'C10': dict(cat='model_checking', ref='6/C10', text='Schedule firing (advance by exactly one occurrence, never early, atomic with the promise, idempotent create) exhaustive in the model; real cron strings, clock jumps, delete/re-create races, faults and crashes validated by TLC.', tech=TRACEB),
  'C11': dict(cat='model_checking', ref='6/C11', text='Liveness <>[]Converged under weak fairness of the background effects checked by TLC on level A; on the real kernel: after clients stop, configurations drawn down to 1, the bounded number of cycles is run and TLC evaluates Converged on the logged database.', tech=TRACEB),
 }
 NOTE = {
